@@ -88,6 +88,14 @@ func main() {
 			}
 			fmt.Println(b, base.Layout)
 		}
+		if base, err := explore.GetBase("SM", cfgByName("ROLLM"), 0); err == nil {
+			fmt.Println("SM", base.Layout)
+			for _, n := range base.Image.NamesIn("db") {
+				fmt.Println("   ", n, len(base.Image.Bytes("db/"+n)))
+			}
+		} else {
+			fmt.Println("SM ERROR", err)
+		}
 		for _, b := range []string{"S2", "S3", "S4"} {
 			base, err := explore.GetBase(b, cfgByName("ROLL"), 0)
 			if err != nil {
